@@ -146,7 +146,7 @@ pub fn concretise(sc: &Value, seed: u64) -> Conf {
     let alg = sc["alg"].as_u64().unwrap() as u32;
     let lenclass = sc["lenclass"].as_str().unwrap();
     let content = sc["content"].as_str().unwrap();
-    let big = lenclass == "gt1mib";
+    let big = lenclass == "gt1mib" || lenclass == "gt8mib";
     let bits: u32 = if big { 19 } else { sc["bits"].as_u64().unwrap() as u32 };
     let avg = 1usize << (bits + 1);
     let window = if alg == 0 { 16 } else { 64 };
@@ -165,11 +165,15 @@ pub fn concretise(sc: &Value, seed: u64) -> Conf {
         "nearmax" => max - 1,
         "gtmax" => max * 3 + 5,
         "gt1mib" => (1 << 20) * 2 + 4099,
+        "gt8mib" => (1 << 20) * 9 + 4099, // chunk data beyond 8 MiB: a whole-archive run over HTTP is longer than any 8 MiB staging
         "kfixed" => fixed * 5,
         "kfixedr" => fixed * 4 + (fixed / 2).max(1),
         _ => (lcg(&mut x) % 20000) as usize,
     };
-    let len = if alg == 2 && !big { len.min(fixed * 300) } else { len };
+    // many chunks: a dictionary of several hundred KiB (1 200 descriptors, ~100 KiB), far beyond one read or one body frame
+    let many = lenclass == "manychunks";
+    let (fixed, len) = if many { (509usize, 610_000usize) } else { (fixed, len) };
+    let len = if alg == 2 && !big && !many { len.min(fixed * 300) } else { len };
     let len = if !big && alg != 2 { len.min(avg * 200) } else { len };
     let data = gen_content(content, len, &mut x);
     if alg == 2 {
